@@ -264,4 +264,10 @@ theorem C01_read_generated : readCmdChar = Gen.read_cmd_char := readCmdChar_gene
 function translated from the source on every run (translator item T7) -/
 theorem C01_reset_generated (D : Desc) (s : St) : resetState s = Gen.reset_state D s := resetState_generated D s
 
+/-- the counters this property's theorems keep as unbounded natural numbers (`length`) are declared
+`size_t` in `cat.h` — 64 bits on the target, so they cannot wrap on any buffer, table or line that exists; the widths
+are read from the struct declarations on every run (translator item T21) -/
+theorem C01_counters_unbounded :
+    Gen.width_obj_length = 64 := by decide
+
 end Cat
